@@ -74,8 +74,14 @@ def cases(tier, seed):
         d = dict(mesh)
         d.update(geos[(mi + seed) % 2])
         lay = [scope.layouts(len(b), 'idrev')[-1 if (mi % 2) else 0] if len(b) <= 3 else None for b in mesh["levels"]]
-        d.update({"fields": ["temp", "volFrac", "density"] if mi % 3 != 2 else ["temp", "density"],
-                  "payload": ["pos", "frac", "signed"] if mi % 3 != 2 else ["pos", "signed"], "layout": lay, "seed": seed})
+        if mi % 3 == 0:
+            # sibling fields whose names start like / contain the volume fraction's
+            flds, pay = ["volFrac_smooth", "vfrac", "temp", "volFrac", "density", "xvolFrac"], ["one", "pos", "pos", "frac", "signed", "coded"]
+        elif mi % 3 == 1:
+            flds, pay = ["temp", "volFrac", "density"], ["pos", "frac", "signed"]
+        else:
+            flds, pay = ["temp", "density"], ["pos", "signed"]
+        d.update({"fields": flds, "payload": pay, "layout": lay, "seed": seed})
         out.append({"desc": d, "cli": mi % 5 == 0 or big, "w": 20 if big else nlev})
         if nlev >= 2 and not big and mi % 4 == 1:
             out.append({"desc": d, "poison_covered": True, "w": 1})
